@@ -30,6 +30,35 @@ claim(
     "DESIGN.md §5 C09",
 )
 
+claim(
+    "C02",
+    "CrossHair symbolic execution (z3) of the regenerated model classes' from_dict/to_dict with schema-directed symbolic JSON instances",
+    "For every skeleton model and every JSON instance inside the bounds (all presence patterns, null where nullable, every union branch, symbolic leaves) decode/encode is the identity, the encoded form is plain JSON, and decode(encode(m)) == m: CrossHair 'Confirmed over all paths' per class; counterexamples are replayed on a freshly regenerated client.",
+    "Document shape is bounded by the skeleton family (vlib/skeletons.py); strings <= 3/4 chars, lists <= 2, nesting 1/2; date/uuid/enum leaves from pools; tz-aware date-times outside the claim (CrossHair datetime model).",
+    "DESIGN.md §5 C02",
+)
+claim(
+    "C03",
+    "CrossHair symbolic execution (z3) of the regenerated _get_kwargs / sync_detailed / asyncio_detailed / sync / asyncio against an oracle table built from the document",
+    "For every skeleton operation and all argument values/set-unset patterns inside the bounds, exactly one request is issued whose method, url, params, headers, cookies, body kind and Content-Type equal the document-derived oracle; blocking and asyncio variants send the same kwargs; secured operations demand AuthenticatedClient.",
+    "The claim ends at the httpx API boundary (recording stub); httpx's wire encoding is not encoded. Multipart parts are checked for key set and shape only. Shapes outside the skeleton family are outside the claim.",
+    "DESIGN.md §5 C03",
+)
+claim(
+    "C04",
+    "CrossHair symbolic execution (z3) of the regenerated _parse_response/_build_response with symbolic status, payload and raise_on_unexpected_status",
+    "For every skeleton operation, every status in (documented + undocumented) pool and every schema-valid payload inside the bounds the parsed value equals the document-derived decoding, raw status/headers/content are handed through, undocumented statuses yield None or UnexpectedStatus.",
+    "Status codes come from a pool (documented codes, one undocumented registered code, one unregistered code while finding C04-F1 is not live); responses are stubs of httpx.Response.",
+    "DESIGN.md §5 C04",
+)
+claim(
+    "C10",
+    "CrossHair symbolic execution (z3) of regenerated from_dict/to_dict and _get_kwargs with symbolic absent/null/present states",
+    "For every skeleton property and parameter: absent <-> UNSET and not emitted/not sent, null <-> None where nullable, present <-> value, in both directions, for all symbolic instances inside the bounds.",
+    "Document shape bounded by the skeleton family; signature/annotation half (required <=> no default) checked on the regenerated classes of the family.",
+    "DESIGN.md §5 C10",
+)
+
 ALL = [f"C{i:02d}" for i in range(1, 21)]
 
 
